@@ -34,6 +34,8 @@ var hC05Undef = []hC05Tmpl{
 	{id: "blockaddress-func", pre: "define void @a() {\nb:\n\tret void\n}\n@g = global i8* blockaddress(@", post: ", %b)\n", defined: "a"},
 	{id: "blockaddress-block", pre: "define void @f() {\na:\n\tret void\n}\n@g = global i8* blockaddress(@f, %", post: ")\n", defined: "a"},
 	{id: "uselistorder", pre: "@a = global i32 0\n@b = global i32* @a\n@c = global i32* @a\nuselistorder i32* @", post: ", { 1, 0 }\n", defined: "abc"},
+	{id: "uselistorder-blockaddress", pre: "define void @f() {\na:\n\tret void\n}\n@p = global i8* blockaddress(@f, %a)\n@q = global i8* blockaddress(@f, %a)\nuselistorder i8* blockaddress(@f, %", post: "), { 1, 0 }\n", defined: "a"},
+	{id: "uselistorder-bb", pre: "define void @f(i1 %c) {\na:\n\tbr i1 %c, label %b, label %b\nb:\n\tret void\n}\nuselistorder_bb @f, %", post: ", { 1, 0 }\n", defined: "ab"},
 	{id: "metadata-attachment", pre: "@g = global i32 0, !dbg !", post: "\n!0 = !{}\n!1 = !{}\n", defined: "01", digit: true},
 	{id: "metadata-tuple", pre: "!0 = !{}\n!1 = !{!", post: "}\n", defined: "01", digit: true},
 	{id: "metadata-named", pre: "!0 = !{}\n!nm = !{!", post: "}\n", defined: "0", digit: true},
@@ -41,13 +43,13 @@ var hC05Undef = []hC05Tmpl{
 	{id: "attrgroup", pre: "define void @f() #", post: " {\n\tret void\n}\nattributes #0 = { nounwind }\n", defined: "0", digit: true, accept: true},
 }
 
-var hC05UndefIDs = [...]string{"C05.type.undefined-is-error", "C05.type-alias.undefined-is-error", "C05.global.undefined-is-error", "C05.callee.undefined-is-error", "C05.local.undefined-is-error", "C05.label.undefined-is-error", "C05.phi-pred.undefined-is-error", "C05.comdat.undefined-is-error", "C05.blockaddress-func.undefined-is-error", "C05.blockaddress-block.undefined-is-error", "C05.uselistorder.undefined-is-error", "C05.metadata-attachment.undefined-is-error", "C05.metadata-tuple.undefined-is-error", "C05.metadata-named.undefined-is-error", "C05.metadata-di-field.undefined-is-error", "C05.attrgroup.undefined-is-materialised"}
-var hC05DefIDs = [...]string{"C05.type.defined-is-accepted", "C05.type-alias.defined-is-accepted", "C05.global.defined-is-accepted", "C05.callee.defined-is-accepted", "C05.local.defined-is-accepted", "C05.label.defined-is-accepted", "C05.phi-pred.defined-is-accepted", "C05.comdat.defined-is-accepted", "C05.blockaddress-func.defined-is-accepted", "C05.blockaddress-block.defined-is-accepted", "C05.uselistorder.defined-is-accepted", "C05.metadata-attachment.defined-is-accepted", "C05.metadata-tuple.defined-is-accepted", "C05.metadata-named.defined-is-accepted", "C05.metadata-di-field.defined-is-accepted", "C05.attrgroup.defined-is-accepted"}
+var hC05UndefIDs = [...]string{"C05.type.undefined-is-error", "C05.type-alias.undefined-is-error", "C05.global.undefined-is-error", "C05.callee.undefined-is-error", "C05.local.undefined-is-error", "C05.label.undefined-is-error", "C05.phi-pred.undefined-is-error", "C05.comdat.undefined-is-error", "C05.blockaddress-func.undefined-is-error", "C05.blockaddress-block.undefined-is-error", "C05.uselistorder.undefined-is-error", "C05.uselistorder-blockaddress.undefined-is-error", "C05.uselistorder-bb.undefined-is-error", "C05.metadata-attachment.undefined-is-error", "C05.metadata-tuple.undefined-is-error", "C05.metadata-named.undefined-is-error", "C05.metadata-di-field.undefined-is-error", "C05.attrgroup.undefined-is-materialised"}
+var hC05DefIDs = [...]string{"C05.type.defined-is-accepted", "C05.type-alias.defined-is-accepted", "C05.global.defined-is-accepted", "C05.callee.defined-is-accepted", "C05.local.defined-is-accepted", "C05.label.defined-is-accepted", "C05.phi-pred.defined-is-accepted", "C05.comdat.defined-is-accepted", "C05.blockaddress-func.defined-is-accepted", "C05.blockaddress-block.defined-is-accepted", "C05.uselistorder.defined-is-accepted", "C05.uselistorder-blockaddress.defined-is-accepted", "C05.uselistorder-bb.defined-is-accepted", "C05.metadata-attachment.defined-is-accepted", "C05.metadata-tuple.defined-is-accepted", "C05.metadata-named.defined-is-accepted", "C05.metadata-di-field.defined-is-accepted", "C05.attrgroup.defined-is-accepted"}
 
 // VfC05_Undefined
 //
 //vf:unwind 300
-//vf:shards 16
+//vf:shards 18
 func VfC05_Undefined() {
 	k := vfChoice("template", len(hC05Undef))
 	t := hC05Undef[k]
